@@ -22,6 +22,7 @@ type Obligation struct {
 	Pos    string
 	Note   string
 	Func   *FuncVC
+	Raw    string // raw SMT-LIB text (bit-vector lemmas); replaces the generated query
 	Expect string // "unsat" normally; "sat" for must-fail twins / covers
 	Vars   []string // interesting model vars
 }
@@ -123,6 +124,7 @@ type loopInfo struct {
 	// state snapshot at head after havoc, for decreases
 	decr0 []Term
 	pre   *State // state before havoc (for loop-modifies frames and old())
+	heaps []string
 }
 
 func (fv *FuncVC) errorf(format string, args ...interface{}) {
@@ -153,6 +155,25 @@ func (fv *FuncVC) declareFun(name string, args []string, res string) {
 		fv.declared[name] = true
 		fv.decls = append(fv.decls, fmt.Sprintf("(declare-fun %s (%s) %s)", name, strings.Join(args, " "), res))
 	}
+}
+
+// ix is the address of element i (size esz) of a block at base. For esz > 1 it is
+// an uninterpreted function with a defining axiom, so that quantifier patterns
+// over element reads contain no arithmetic (E-matching on arithmetic is unreliable).
+func (fv *FuncVC) ix(base, i Term, esz int64) Term {
+	if esz == 1 {
+		return add(base, i)
+	}
+	if esz == 0 {
+		return base
+	}
+	name := fmt.Sprintf("ix.%d", esz)
+	if !fv.declared[name] {
+		fv.declared[name] = true
+		fv.decls = append(fv.decls, fmt.Sprintf("(declare-fun %s (Int Int) Int)", name))
+		fv.decls = append(fv.decls, fmt.Sprintf("(assert (forall ((p!i Int) (i!i Int)) (! (= (%s p!i i!i) (+ p!i (* %d i!i))) :pattern ((%s p!i i!i)))))", name, esz, name))
+	}
+	return mk(SInt, name, base, i)
 }
 
 func (fv *FuncVC) freshConst(prefix, sort string) Term {
@@ -626,6 +647,17 @@ func (fv *FuncVC) heapsOfType(t types.Type) []string {
 }
 
 func (fv *FuncVC) isRaw(v ssa.Value) bool {
+	// pointers to layout-overlay structs (declared in the contract const "rawtypes") always
+	// address raw memory, whatever cell or register they travelled through.
+	if pt, ok := v.Type().Underlying().(*types.Pointer); ok {
+		if n, ok := pt.Elem().(*types.Named); ok {
+			for _, r := range strings.Fields(fv.W.CS.Consts["rawtypes"]) {
+				if n.Obj().Name() == r {
+					return true
+				}
+			}
+		}
+	}
 	switch x := v.(type) {
 	case *ssa.Convert:
 		if isUnsafePointer(x.X.Type()) {
